@@ -1,6 +1,7 @@
 import ShootVerif.Drive.Ctor
 import ShootVerif.Model.Opt
 import ShootVerif.Proofs.CtorMain
+import ShootVerif.Model.Alloc
 namespace ShootVerif.Drive
 open ShootVerif.Ctor ShootVerif.Opt
 
@@ -30,11 +31,18 @@ def optRun (t : Tree) (names : List String) (dirty : Bool) (seq : List Nat) (_mi
   let optNames := seq.map (fun j => names.getD j "?")
   let st := withM defs (numbered optNames) (fun _ => .init)
   let ls := leavesPtrs [] [] 0 t
-  -- f531104: an option for a promoted field allocates the embedded pointer structs on its way
-  let allocated : List (List String) := (optNames.map (fun n =>
-    match ls.find? (fun l => l.2.2.1.name = n && isTarget t l.2.1 l.2.2.1) with
-    | some l => l.2.2.2.2
-    | none => [])).flatten
+  -- f531104: an option for a promoted field allocates the embedded pointer structs on its way (Model/Alloc.lean)
+  let step (acc : Option Alloc.Heap) (n : String) : Option Alloc.Heap :=
+    match acc with
+    | none => none
+    | some h =>
+      match ls.find? (fun l => l.2.2.1.name = n && isTarget t l.2.1 l.2.2.1) with
+      | some l => (match Alloc.writeField l.2.2.2.2 h with | .ok h' => some h' | .panic => none)
+      | none => some h
+  let heap := optNames.foldl step (some [])
+  match heap with
+  | none => "panic"
+  | some allocated =>
   let shown := if dirty then ls else ls.filter (fun l => l.2.2.2.2.all (fun p => allocated.contains p))
   ";".intercalate (shown.map (fun l =>
     pathKey l.1 l.2.2.1.name ++ "=" ++ showVal dirty (if isTarget t l.2.1 l.2.2.1 then st l.2.2.1.name else .init)))
